@@ -340,14 +340,21 @@ def gfp(mask, k, t):
 
 
 def closed(S, k, t):
+    """The closure predicate of C03, literally."""
     S = set(S)
-    for v in S:
-        if sum(1 for w in succ(v, k) if w in S) < t:
-            return False
+    deg = {v: sum(1 for w in succ(v, k) if w in S) for v in S}
+    if any(d < t for d in deg.values()):
+        return False
     if t == 1 and S:
-        G = from_mask(S, k)
-        crb = can_reach_branch(G)
-        if any(v not in crb for v in S):
+        good = {v for v in S if deg[v] >= 2}
+        grew = True
+        while grew:
+            grew = False
+            for v in S:
+                if v not in good and any(w in good for w in succ(v, k) if w in S):
+                    good.add(v)
+                    grew = True
+        if good != S:
             return False
     return True
 
@@ -505,3 +512,54 @@ def rho_bounds(comp, adj, iters=2000, eps=1e-13):
         if hi - lo < eps:
             break
     return lo, hi
+
+
+# ------------------------------------------------------------------ compiled filter predicate (fast)
+def compile_cfg(cfg):
+    """Integer thresholds from the decimals the user wrote: g > hi*k <=> g > floor(hi*k), etc."""
+    from math import floor, ceil
+    k, run, gc, motifs = cfg
+    ms = None
+    if motifs is not None:
+        ms = []
+        for m in motifs:
+            ms.append(m)
+            try:
+                ms.append(revcomp(m))
+            except KeyError:
+                pass
+    if gc is None:
+        return (k, run, None, ms)
+    lo, hi = Fraction(gc[0]), Fraction(gc[1])
+    return (k, run, (ceil(lo * k), floor(hi * k), floor((1 - lo) * k)), ms)
+
+
+def seq_ok_c(c, s):
+    k, run, gc, ms = c
+    for ch in s:
+        if ch not in NUC:
+            return False
+    if run is not None:
+        for ch in NUC:
+            if ch * (run + 1) in s:
+                return False
+    if ms is not None:
+        for m in ms:
+            if m in s:
+                return False
+    if gc is not None:
+        glo, ghi, amax = gc
+        n = len(s)
+        if n >= k:
+            g = s.count('C', 0, k) + s.count('G', 0, k)
+            if g > ghi or g < glo:
+                return False
+            for i in range(1, n - k + 1):
+                g += (s[i + k - 1] in 'CG') - (s[i - 1] in 'CG')
+                if g > ghi or g < glo:
+                    return False
+        else:
+            g = s.count('C') + s.count('G')
+            if g > ghi or (n - g) > amax:
+                return False
+    return True
